@@ -301,18 +301,124 @@ theorem makeValid_spec (τ : Rat) (hτ : 0 < τ) (x : Rat) :
     · subst h; rw [hm2]; simp; exact hd1
     · linarith
 
-/-! ### observations: every stored point / orientation / orientation interval / dimension / velocity vector -/
+/-! ### exact behaviour of the wrap loops on the ranges that occur (|θ| ≤ τ, |a| ≤ τ) -/
 
+theorem downLoop_id (τ : Rat) : ∀ (n : Nat) (x : Rat), x ≤ τ → downLoop n τ x = x
+  | 0, _, _ => rfl
+  | n + 1, x, h => by
+    unfold downLoop
+    have : ¬ x > τ := by linarith
+    simp [this]
+
+theorem upLoop_id (τ : Rat) : ∀ (n : Nat) (x : Rat), -τ ≤ x → upLoop n τ x = x
+  | 0, _, _ => rfl
+  | n + 1, x, h => by
+    unfold upLoop
+    have : ¬ x < -τ := by linarith
+    simp [this]
+
+theorem fuelFor_pos (τ x : Rat) : ∃ n, fuelFor τ x = n + 1 := ⟨_, rfl⟩
+
+/-- `make_valid_orientation` computed exactly on `[-2τ, 2τ]` (all that `θ + a` can reach for a valid orientation and a
+    valid angle): unchanged inside `[-τ, τ]`, exactly one period down above, exactly one period up below. -/
+theorem makeValid_exact (τ : Rat) (hτ : 0 < τ) (x : Rat) (h1 : -(2 * τ) ≤ x) (h2 : x ≤ 2 * τ) :
+    makeValid τ x = if τ < x then x - τ else if x < -τ then x + τ else x := by
+  unfold makeValid
+  obtain ⟨n, hn⟩ := fuelFor_pos τ x
+  rw [hn]
+  by_cases ha : τ < x
+  · simp only [ha, if_true]
+    have e1 : downLoop (n + 1) τ x = x - τ := by
+      rw [downLoop]; simp only [gt_iff_lt, ha, if_true]
+      exact downLoop_id τ n _ (by linarith)
+    rw [e1]; exact upLoop_id τ _ _ (by linarith)
+  · simp only [ha, if_false]
+    have e1 : downLoop (n + 1) τ x = x := downLoop_id τ _ _ (by linarith)
+    rw [e1]
+    by_cases hb : x < -τ
+    · simp only [hb, if_true]
+      rw [upLoop]; simp only [hb, if_true]
+      exact upLoop_id τ n _ (by linarith)
+    · simp only [hb, if_false]
+      exact upLoop_id τ _ _ (by linarith)
+
+theorem downLoop2_id (τ : Rat) : ∀ (n : Nat) (s e : Rat), s ≤ τ → e ≤ τ → downLoop2 n τ s e = (s, e)
+  | 0, _, _, _, _ => rfl
+  | n + 1, s, e, h1, h2 => by
+    unfold downLoop2
+    have : ¬ (s > τ ∨ e > τ) := by rintro (h | h) <;> linarith
+    rw [if_neg this]
+
+theorem upLoop2_id (τ : Rat) : ∀ (n : Nat) (s e : Rat), -τ ≤ s → upLoop2 n τ s e = (s, e)
+  | 0, _, _, _ => rfl
+  | n + 1, s, e, h1 => by
+    unfold upLoop2
+    have : ¬ (s < -τ ∨ s < -τ) := by rintro (h | h) <;> linarith
+    rw [if_neg this]
+
+theorem mvi_aux (τ : Rat) (s e : Rat) (hse : s ≤ e) (hl : e - s < τ) (h1 : -(2 * τ) ≤ s) (h2 : e ≤ 2 * τ)
+    (f g : Nat) :
+    upLoop2 (g + 1) τ (downLoop2 (f + 1) τ s e).1 (downLoop2 (f + 1) τ s e).2
+      = if τ < e then (s - τ, e - τ) else if s < -τ then (s + τ, e + τ) else (s, e) := by
+  by_cases ha : τ < e
+  · rw [if_pos ha]
+    have e1 : downLoop2 (f + 1) τ s e = (s - τ, e - τ) := by
+      rw [downLoop2]
+      have : s > τ ∨ e > τ := Or.inr ha
+      rw [if_pos this]
+      exact downLoop2_id τ f _ _ (by linarith) (by linarith)
+    rw [e1]; exact upLoop2_id τ _ _ _ (by simp only; linarith)
+  · rw [if_neg ha]
+    have e1 : downLoop2 (f + 1) τ s e = (s, e) := downLoop2_id τ _ _ _ (by linarith) (by linarith)
+    rw [e1]
+    by_cases hb : s < -τ
+    · rw [if_pos hb, upLoop2]
+      have : s < -τ ∨ s < -τ := Or.inl hb
+      rw [if_pos this]
+      exact upLoop2_id τ g _ _ (by linarith)
+    · rw [if_neg hb]
+      exact upLoop2_id τ _ _ _ (by linarith)
+
+/-- `make_valid_orientation_interval` computed exactly for `-2τ ≤ s ≤ e ≤ 2τ`, `e - s < τ`: unchanged when already inside
+    `[-τ, τ]`, one period down when the end exceeds `τ`, one period up when the start is below `-τ`. -/
+theorem makeValidInterval_exact (τ : Rat) (s e : Rat) (hse : s ≤ e) (hl : e - s < τ)
+    (h1 : -(2 * τ) ≤ s) (h2 : e ≤ 2 * τ) :
+    makeValidInterval τ s e
+      = if τ < e then (s - τ, e - τ) else if s < -τ then (s + τ, e + τ) else (s, e) := by
+  unfold makeValidInterval
+  obtain ⟨n1, hn1⟩ := fuelFor_pos τ s
+  have hn : fuelFor τ s + fuelFor τ e = (n1 + fuelFor τ e) + 1 := by rw [hn1]; omega
+  have hk : ∀ n : Nat, n + 1 + (n + 1) = (n + 1 + n) + 1 := fun n => by omega
+  simp only []
+  rw [hn, hk]
+  exact mvi_aux τ s e hse hl h1 h2 _ _
+
+/-! ### observations: what is stored in a component, as lists -/
+
+/-- a stored rectangle (length, width, centre, orientation) -/
+structure Rect where
+  l : Rat
+  w : Rat
+  ctr : Pt
+  θ : Rat
+
+/-- What a component stores, as lists in traversal order.  `pts` holds EVERY stored point of the model record (centres,
+    polygon and polyline vertices, positions); `rings` / `lines` / `rects` repeat some of them grouped into the polygons,
+    polylines and rectangles they belong to (so that areas, lengths and corner points can be stated on the composite). -/
 structure Obs where
   pts : List Pt := []
   angs : List Rat := []
   ivs : List I := []
   dims : List Rat := []
   vels : List Pt := []
+  rings : List (List Pt) := []
+  lines : List (List Pt) := []
+  rects : List Rect := []
 
 def Obs.nil : Obs := {}
 def Obs.app (a b : Obs) : Obs :=
-  ⟨a.pts ++ b.pts, a.angs ++ b.angs, a.ivs ++ b.ivs, a.dims ++ b.dims, a.vels ++ b.vels⟩
+  ⟨a.pts ++ b.pts, a.angs ++ b.angs, a.ivs ++ b.ivs, a.dims ++ b.dims, a.vels ++ b.vels,
+   a.rings ++ b.rings, a.lines ++ b.lines, a.rects ++ b.rects⟩
 instance : Append Obs := ⟨Obs.app⟩
 def Obs.ofPts (l : List Pt) : Obs := { pts := l }
 
@@ -321,6 +427,9 @@ def Obs.ofPts (l : List Pt) : Obs := { pts := l }
 @[simp] theorem Obs.app_ivs (a b : Obs) : (a ++ b).ivs = a.ivs ++ b.ivs := rfl
 @[simp] theorem Obs.app_dims (a b : Obs) : (a ++ b).dims = a.dims ++ b.dims := rfl
 @[simp] theorem Obs.app_vels (a b : Obs) : (a ++ b).vels = a.vels ++ b.vels := rfl
+@[simp] theorem Obs.app_rings (a b : Obs) : (a ++ b).rings = a.rings ++ b.rings := rfl
+@[simp] theorem Obs.app_lines (a b : Obs) : (a ++ b).lines = a.lines ++ b.lines := rfl
+@[simp] theorem Obs.app_rects (a b : Obs) : (a ++ b).rects = a.rects ++ b.rects := rfl
 
 /-- observations of a list of components -/
 def obsL {α : Type} (f : α → Obs) : List α → Obs
@@ -344,25 +453,51 @@ theorem IvsMoved.app (m : Mo) : ∀ {a a' b b' : List I}, IvsMoved m a a' → Iv
   | [], _ :: _, _, _, ha, _ => ha.elim
   | _ :: _, _ :: _, _, _, ha, hb => ⟨ha.1, IvsMoved.app m ha.2 hb⟩
 
-/-- The component observed as `o'` is the component observed as `o`, moved: EVERY stored point is `tr` of the old one,
-    every orientation is `make_valid_orientation(θ + a)`, every orientation interval is shifted, every dimension is
-    unchanged, every point-mass velocity vector is rotated.  List equality: none forgotten, none added, same order. -/
+/-- two shifts in a row are one shift by the sum (same `τ`). -/
+theorem IvsMoved.trans {m1 m2 m12 : Mo} (hτ : m2.τ = m1.τ) (hτ' : m12.τ = m1.τ) (ha : m12.a = m1.a + m2.a) :
+    ∀ {a b c : List I}, IvsMoved m1 a b → IvsMoved m2 b c → IvsMoved m12 a c
+  | [], [], [], _, _ => trivial
+  | [], [], _ :: _, _, h => h.elim
+  | [], _ :: _, _, h, _ => h.elim
+  | _ :: _, [], _, h, _ => h.elim
+  | _ :: _, _ :: _, [], _, h => h.elim
+  | i :: _, j :: _, k :: _, h1, h2 => by
+    refine ⟨?_, IvsMoved.trans hτ hτ' ha h1.2 h2.2⟩
+    obtain ⟨k1, a1, a2, _, _⟩ := h1.1
+    obtain ⟨k2, b1, b2, b3, b4⟩ := h2.1
+    refine ⟨k1 + k2, ?_, ?_, ?_, ?_⟩
+    · rw [b1, a1, ha, hτ, hτ']; push_cast; ring
+    · rw [b2, a2, ha, hτ, hτ']; push_cast; ring
+    · rw [hτ', ← hτ]; exact b3
+    · rw [hτ', ← hτ]; exact b4
+
+/-- the rectangle `r` moved: centre by `tr`, orientation by `make_valid_orientation(θ + a)`, length and width kept. -/
+def Mo.mvRect (m : Mo) (r : Rect) : Rect := ⟨r.l, r.w, m.mv r.ctr, m.wr r.θ⟩
+
+/-- The component observed as `o'` is the component observed as `o`, moved: every listed point is `tr` of the old one, every
+    orientation is `make_valid_orientation(θ + a)`, every orientation interval is shifted, every dimension is unchanged, every
+    point-mass velocity vector is rotated; polygons, polylines and rectangles are moved vertex by vertex / as a whole.
+    List equality: nothing of the listed content is skipped or added, same order. -/
 structure Moved (m : Mo) (o o' : Obs) : Prop where
   pts : o'.pts = o.pts.map m.mv
   angs : o'.angs = o.angs.map m.wr
   ivs : IvsMoved m o.ivs o'.ivs
   dims : o'.dims = o.dims
   vels : o'.vels = o.vels.map m.rv
+  rings : o'.rings = o.rings.map (List.map m.mv)
+  lines : o'.lines = o.lines.map (List.map m.mv)
+  rects : o'.rects = o.rects.map m.mvRect
 
-theorem Moved.nil (m : Mo) : Moved m Obs.nil Obs.nil := ⟨rfl, rfl, trivial, rfl, rfl⟩
+theorem Moved.nil (m : Mo) : Moved m Obs.nil Obs.nil := ⟨rfl, rfl, trivial, rfl, rfl, rfl, rfl, rfl⟩
 
 theorem Moved.app {m : Mo} {a a' b b' : Obs} (ha : Moved m a a') (hb : Moved m b b') :
     Moved m (a ++ b) (a' ++ b') :=
   ⟨by simp [ha.pts, hb.pts], by simp [ha.angs, hb.angs], IvsMoved.app m ha.ivs hb.ivs,
-   by simp [ha.dims, hb.dims], by simp [ha.vels, hb.vels]⟩
+   by simp [ha.dims, hb.dims], by simp [ha.vels, hb.vels], by simp [ha.rings, hb.rings],
+   by simp [ha.lines, hb.lines], by simp [ha.rects, hb.rects]⟩
 
 theorem Moved.ofPts (m : Mo) (l : List Pt) : Moved m (Obs.ofPts l) (Obs.ofPts (l.map m.mv)) :=
-  ⟨rfl, rfl, trivial, rfl, rfl⟩
+  ⟨rfl, rfl, trivial, rfl, rfl, rfl, rfl, rfl⟩
 
 /-- admissible motion: `τ > 0`, the angle passes `is_valid_orientation`, the matrix is not singular
     (`c² + s² = 1` for the cosine and sine of an angle). -/
@@ -374,13 +509,18 @@ structure Adm (m : Mo) : Prop where
 theorem guard_ok {m : Mo} (h : Adm m) : guard m = .ok () := by simp [guard, h.valid]
 
 theorem mapR_moved {α : Type} (m : Mo) (f : α → Res α) (g : α → Obs) (P : α → Prop)
-    (h : ∀ x, P x → ∃ y, f x = .ok y ∧ Moved m (g x) (g y)) :
-    ∀ l : List α, (∀ x ∈ l, P x) → ∃ l', mapR f l = .ok l' ∧ Moved m (obsL g l) (obsL g l')
-  | [], _ => ⟨[], rfl, Moved.nil m⟩
+    (h : ∀ x, P x → ∃ y, f x = .ok y ∧ Moved m (g x) (g y) ∧ P y) :
+    ∀ l : List α, (∀ x ∈ l, P x) →
+      ∃ l', mapR f l = .ok l' ∧ Moved m (obsL g l) (obsL g l') ∧ (∀ y ∈ l', P y) ∧ l'.length = l.length
+  | [], _ => ⟨[], rfl, Moved.nil m, by simp, rfl⟩
   | x :: xs, hP => by
-    obtain ⟨y, hy, hm⟩ := h x (hP x (by simp))
-    obtain ⟨ys, hys, hms⟩ := mapR_moved m f g P h xs (fun z hz => hP z (by simp [hz]))
-    exact ⟨y :: ys, by simp [mapR, hy, hys], Moved.app hm hms⟩
+    obtain ⟨y, hy, hm, hpy⟩ := h x (hP x (by simp))
+    obtain ⟨ys, hys, hms, hpys, hl⟩ := mapR_moved m f g P h xs (fun z hz => hP z (by simp [hz]))
+    refine ⟨y :: ys, by simp [mapR, hy, hys], Moved.app hm hms, ?_, by simp [hl]⟩
+    intro z hz
+    rcases List.mem_cons.mp hz with rfl | hz
+    · exact hpy
+    · exact hpys z hz
 
 theorem mapR_movePosition {m : Mo} (h : Adm m) : ∀ l : List Pt, mapR (movePosition m) l = .ok (l.map m.mv)
   | [] => rfl
@@ -390,9 +530,9 @@ theorem mapR_movePosition {m : Mo} (h : Adm m) : ∀ l : List Pt, mapR (movePosi
 
 mutual
 def Shape.obs : Shape → Obs
-  | .rect l w ctr θ => { pts := [ctr], angs := [θ], dims := [l, w] }
+  | .rect l w ctr θ => { pts := [ctr], angs := [θ], dims := [l, w], rects := [⟨l, w, ctr, θ⟩] }
   | .circ r ctr => { pts := [ctr], dims := [r] }
-  | .poly vs => { pts := vs }
+  | .poly vs => { pts := vs, rings := [vs] }
   | .group ss => Shape.obsList ss
 def Shape.obsList : List Shape → Obs
   | [] => Obs.nil
@@ -415,15 +555,16 @@ mutual
 theorem Shape.move_spec {m : Mo} (h : Adm m) : ∀ sh : Shape, sh.WF →
     ∃ sh', sh.move m = .ok sh' ∧ Moved m sh.obs sh'.obs ∧ sh'.WF
   | .rect l w ctr θ, _ =>
-    ⟨.rect l w (m.mv ctr) (m.wr θ), by simp [Shape.move, guard_ok h], ⟨rfl, rfl, trivial, rfl, rfl⟩, trivial⟩
-  | .circ r ctr, _ => ⟨.circ r (m.mv ctr), by simp [Shape.move], ⟨rfl, rfl, trivial, rfl, rfl⟩, trivial⟩
+    ⟨.rect l w (m.mv ctr) (m.wr θ), by simp [Shape.move, guard_ok h], ⟨rfl, rfl, trivial, rfl, rfl, rfl, rfl, rfl⟩, trivial⟩
+  | .circ r ctr, _ =>
+    ⟨.circ r (m.mv ctr), by simp [Shape.move], ⟨rfl, rfl, trivial, rfl, rfl, rfl, rfl, rfl⟩, trivial⟩
   | .poly vs, hw => by
     have hw' : polyMk vs = .ok vs := hw
     have e : polyMk (vs.map m.mv) = .ok (vs.map m.mv) := by
       have := polyMk_map m.c m.s m.t h.det vs
       rw [hw'] at this
       exact this
-    exact ⟨.poly (vs.map m.mv), by simp [Shape.move, guard_ok h, e], ⟨rfl, rfl, trivial, rfl, rfl⟩, e⟩
+    exact ⟨.poly (vs.map m.mv), by simp [Shape.move, guard_ok h, e], ⟨rfl, rfl, trivial, rfl, rfl, rfl, rfl, rfl⟩, e⟩
   | .group ss, hw => by
     obtain ⟨ss', e, hm, hw'⟩ := Shape.moveList_spec h ss hw
     exact ⟨.group ss', by simp [Shape.move, guard_ok h, e], hm, hw'⟩
@@ -439,24 +580,27 @@ end
 /-! ### states -/
 
 def Pos.obs : Pos → Obs
-  | .none => Obs.nil
   | .pt p => { pts := [p] }
   | .region sh => sh.obs
+  | _ => Obs.nil
 
 def Ori.obs : Ori → Obs
-  | .none => Obs.nil
   | .exact θ => { angs := [θ] }
   | .iv i => { ivs := [i] }
+  | _ => Obs.nil
 
 def State.obs (st : State) : Obs := st.pos.obs ++ st.ori.obs ++ { vels := st.vel.toList }
 
+/-- admissible position: absent, an array, or a shape in normal form (anything else is the `TypeError` branch). -/
 def Pos.WF : Pos → Prop
   | .region sh => sh.WF
+  | .other => False
   | _ => True
 
-/-- a constructed `AngleInterval`: `start ≤ end`, `end - start < 2π`. -/
+/-- admissible orientation: absent, a number, or a constructed `AngleInterval` (`start ≤ end`, `end - start < 2π`). -/
 def Ori.WF (τ : Rat) : Ori → Prop
   | .iv i => i.lo ≤ i.hi ∧ i.hi - i.lo < τ
+  | .other => False
   | _ => True
 
 def State.WF (τ : Rat) (st : State) : Prop := st.pos.WF ∧ st.ori.WF τ
@@ -467,7 +611,6 @@ theorem addAngle_spec {m : Mo} (h : Adm m) (i : I) (h1 : i.lo ≤ i.hi) (h2 : i.
   refine ⟨⟨i.lo + m.a + k * m.τ, i.hi + m.a + k * m.τ⟩, ?_, ⟨k, rfl, rfl, b1, b2⟩, by simp; linarith, by simp; linarith⟩
   unfold addAngle mkAngle
   simp only [hk]
-  have c1 : i.hi + m.a + k * m.τ - (i.lo + m.a + k * m.τ) < m.τ := by linarith
   have c2 : validOrientation m.τ (i.lo + m.a + k * m.τ) = true := by
     simp only [validOrientation, Bool.and_eq_true, decide_eq_true_eq]; exact ⟨b1, by linarith⟩
   have c3 : validOrientation m.τ (i.hi + m.a + k * m.τ) = true := by
@@ -475,47 +618,90 @@ theorem addAngle_spec {m : Mo} (h : Adm m) (i : I) (h1 : i.lo ≤ i.hi) (h2 : i.
   have c4 : i.lo + m.a + k * m.τ ≤ i.hi + m.a + k * m.τ := by linarith
   simp [c2, c3, c4, h2]
 
+/-- the shift of a constructed interval whose ends are valid orientations by a valid angle, computed exactly:
+    `k = 0` when `[lo + a, hi + a]` is already inside `[-τ, τ]`, `k = -1` when `hi + a > τ`, `k = +1` when `lo + a < -τ`. -/
+theorem addAngle_exact (τ a : Rat) (hτ : 0 < τ) (i : I) (h1 : i.lo ≤ i.hi) (h2 : i.hi - i.lo < τ)
+    (hlo : -τ ≤ i.lo) (hhi : i.hi ≤ τ) (ha1 : -τ ≤ a) (ha2 : a ≤ τ) :
+    addAngle τ i a = .ok (if τ < i.hi + a then ⟨i.lo + a - τ, i.hi + a - τ⟩
+                          else if i.lo + a < -τ then ⟨i.lo + a + τ, i.hi + a + τ⟩ else ⟨i.lo + a, i.hi + a⟩) := by
+  unfold addAngle mkAngle
+  rw [makeValidInterval_exact τ (i.lo + a) (i.hi + a) (by linarith) (by linarith) (by linarith) (by linarith)]
+  by_cases c : τ < i.hi + a
+  · simp only [c, if_true]
+    have v1 : validOrientation τ (i.lo + a - τ) = true := by
+      simp only [validOrientation, Bool.and_eq_true, decide_eq_true_eq]; constructor <;> linarith
+    have v2 : validOrientation τ (i.hi + a - τ) = true := by
+      simp only [validOrientation, Bool.and_eq_true, decide_eq_true_eq]; constructor <;> linarith
+    have v3 : i.hi + a - τ - (i.lo + a - τ) < τ := by linarith
+    have v4 : i.lo + a - τ ≤ i.hi + a - τ := by linarith
+    simp [v1, v2, v4, h2]
+  · simp only [c, if_false]
+    by_cases d : i.lo + a < -τ
+    · simp only [d, if_true]
+      have v1 : validOrientation τ (i.lo + a + τ) = true := by
+        simp only [validOrientation, Bool.and_eq_true, decide_eq_true_eq]; constructor <;> linarith
+      have v2 : validOrientation τ (i.hi + a + τ) = true := by
+        simp only [validOrientation, Bool.and_eq_true, decide_eq_true_eq]; constructor <;> linarith
+      have v3 : i.hi + a + τ - (i.lo + a + τ) < τ := by linarith
+      have v4 : i.lo + a + τ ≤ i.hi + a + τ := by linarith
+      simp [v1, v2, v4, h2]
+    · simp only [d, if_false]
+      have v1 : validOrientation τ (i.lo + a) = true := by
+        simp only [validOrientation, Bool.and_eq_true, decide_eq_true_eq]; constructor <;> linarith
+      have v2 : validOrientation τ (i.hi + a) = true := by
+        simp only [validOrientation, Bool.and_eq_true, decide_eq_true_eq]; constructor <;> linarith
+      have v3 : i.hi + a - (i.lo + a) < τ := by linarith
+      have v4 : i.lo + a ≤ i.hi + a := by linarith
+      simp [v1, v2, v4, h2]
+
 theorem Pos.move_spec {m : Mo} (h : Adm m) : ∀ p : Pos, p.WF → ∃ p', p.move m = .ok p' ∧ Moved m p.obs p'.obs ∧ p'.WF
   | .none, _ => ⟨.none, rfl, Moved.nil m, trivial⟩
-  | .pt p, _ => ⟨.pt (m.mv p), rfl, ⟨rfl, rfl, trivial, rfl, rfl⟩, trivial⟩
+  | .pt p, _ => ⟨.pt (m.mv p), rfl, ⟨rfl, rfl, trivial, rfl, rfl, rfl, rfl, rfl⟩, trivial⟩
   | .region sh, hw => by
     obtain ⟨sh', e, hm, hw'⟩ := Shape.move_spec h sh hw
     exact ⟨.region sh', by simp [Pos.move, e], hm, hw'⟩
+  | .other, hw => hw.elim
 
 theorem Ori.move_spec {m : Mo} (h : Adm m) : ∀ o : Ori, o.WF m.τ →
     ∃ o', o.move m = .ok o' ∧ Moved m o.obs o'.obs ∧ o'.WF m.τ
   | .none, _ => ⟨.none, rfl, Moved.nil m, trivial⟩
-  | .exact θ, _ => ⟨.exact (m.wr θ), rfl, ⟨rfl, rfl, trivial, rfl, rfl⟩, trivial⟩
+  | .exact θ, _ => ⟨.exact (m.wr θ), rfl, ⟨rfl, rfl, trivial, rfl, rfl, rfl, rfl, rfl⟩, trivial⟩
   | .iv i, hw => by
     obtain ⟨i', e, hm, hv⟩ := addAngle_spec h i hw.1 hw.2
-    exact ⟨.iv i', by simp [Ori.move, e], ⟨rfl, rfl, ⟨hm, trivial⟩, rfl, rfl⟩, hv⟩
+    exact ⟨.iv i', by simp [Ori.move, e], ⟨rfl, rfl, ⟨hm, trivial⟩, rfl, rfl, rfl, rfl, rfl⟩, hv⟩
+  | .other, hw => hw.elim
 
 theorem State.move_spec {m : Mo} (h : Adm m) (st : State) (hw : st.WF m.τ) :
     ∃ st', st.move m = .ok st' ∧ Moved m st.obs st'.obs ∧ st'.WF m.τ := by
   obtain ⟨p', e1, hm1, hw1⟩ := Pos.move_spec h st.pos hw.1
   obtain ⟨o', e2, hm2, hw2⟩ := Ori.move_spec h st.ori hw.2
   refine ⟨⟨p', o', st.vel.map m.rv⟩, by simp [State.move, guard_ok h, e1, e2], ?_, ⟨hw1, hw2⟩⟩
-  refine Moved.app (Moved.app hm1 hm2) ⟨rfl, rfl, trivial, rfl, ?_⟩
+  refine Moved.app (Moved.app hm1 hm2) ⟨rfl, rfl, trivial, rfl, ?_, rfl, rfl, rfl⟩
   cases st.vel <;> rfl
 
 theorem moveStates_spec {m : Mo} (h : Adm m) (l : List State) (hw : ∀ st ∈ l, st.WF m.τ) :
-    ∃ l', moveStates m l = .ok l' ∧ Moved m (obsL State.obs l) (obsL State.obs l') :=
-  mapR_moved m (State.move m) State.obs (fun st => st.WF m.τ)
-    (fun st hst => let ⟨st', e, hm, _⟩ := State.move_spec h st hst; ⟨st', e, hm⟩) l hw
+    ∃ l', moveStates m l = .ok l' ∧ Moved m (obsL State.obs l) (obsL State.obs l') ∧ (∀ st ∈ l', st.WF m.τ) :=
+  let ⟨l', e, hm, hw', _⟩ := mapR_moved m (State.move m) State.obs (fun st => st.WF m.τ)
+    (fun st hst => State.move_spec h st hst) l hw
+  ⟨l', e, hm, hw'⟩
 
 theorem moveOccs_spec {m : Mo} (h : Adm m) (l : List Shape) (hw : ∀ sh ∈ l, sh.WF) :
-    ∃ l', moveOccs m l = .ok l' ∧ Moved m (obsL Shape.obs l) (obsL Shape.obs l') := by
+    ∃ l', moveOccs m l = .ok l' ∧ Moved m (obsL Shape.obs l) (obsL Shape.obs l') ∧ (∀ sh ∈ l', sh.WF) := by
   have := mapR_moved m (fun sh => match guard m with | .error e => .error e | .ok _ => Shape.move m sh) Shape.obs
     (fun sh => sh.WF)
-    (fun sh hsh => let ⟨sh', e, hm, _⟩ := Shape.move_spec h sh hsh; ⟨sh', by simp [guard_ok h, e], hm⟩) l hw
-  obtain ⟨l', e, hm⟩ := this
+    (fun sh hsh => let ⟨sh', e, hm, hw'⟩ := Shape.move_spec h sh hsh; ⟨sh', by simp [guard_ok h, e], hm, hw'⟩) l hw
+  obtain ⟨l', e, hm, hw', _⟩ := this
   have e' : mapR (fun sh => Shape.move m sh) l = .ok l' := by simpa [guard_ok h] using e
-  exact ⟨l', by simp [moveOccs, guard_ok h, e'], hm⟩
+  exact ⟨l', by simp [moveOccs, guard_ok h, e'], hm, hw'⟩
 
 /-! ### road network -/
 
+def stopLine (s : Option (Pt × Pt)) : List Pt := match s with | none => [] | some sl => [sl.1, sl.2]
+
 def Lanelet.obs (la : Lanelet) : Obs :=
-  Obs.ofPts (la.left ++ la.center ++ la.right ++ (match la.stop with | none => [] | some sl => [sl.1, sl.2]) ++ la.poly)
+  { pts := la.left ++ la.center ++ la.right ++ stopLine la.stop ++ la.poly,
+    lines := [la.left, la.center, la.right, stopLine la.stop],
+    rings := [la.poly] }
 
 /-- the stored polygon of a lanelet is the one its constructor builds from `right ++ reverse left`. -/
 def Lanelet.WF (la : Lanelet) : Prop := polyMk (la.right ++ la.left.reverse) = .ok la.poly
@@ -531,70 +717,99 @@ theorem Lanelet.move_spec {m : Mo} (h : Adm m) (la : Lanelet) (hw : la.WF) :
   refine ⟨⟨la.left.map m.mv, la.center.map m.mv, la.right.map m.mv,
            la.stop.map (fun sl => (m.mv sl.1, m.mv sl.2)), la.poly.map m.mv⟩, ?_, ?_, e⟩
   · cases hs : la.stop <;> simp [Lanelet.move, guard_ok h, moveStop, hs, e]
-  · have : (Lanelet.obs ⟨la.left.map m.mv, la.center.map m.mv, la.right.map m.mv,
-        la.stop.map (fun sl => (m.mv sl.1, m.mv sl.2)), la.poly.map m.mv⟩)
-        = Obs.ofPts ((la.left ++ la.center ++ la.right ++
-            (match la.stop with | none => [] | some sl => [sl.1, sl.2]) ++ la.poly).map m.mv) := by
-      cases la.stop <;> simp [Lanelet.obs]
-    rw [this]
-    exact Moved.ofPts m _
+  · have hst : stopLine (la.stop.map (fun sl => (m.mv sl.1, m.mv sl.2))) = (stopLine la.stop).map m.mv := by
+      cases la.stop <;> simp [stopLine]
+    refine ⟨?_, rfl, trivial, rfl, rfl, ?_, ?_, rfl⟩
+    · simp [Lanelet.obs, hst]
+    · simp [Lanelet.obs]
+    · simp [Lanelet.obs, hst]
+
+def Light.obs (l : Light) : Obs := Obs.ofPts [l.pos]
+
+theorem Light.move_spec {m : Mo} (h : Adm m) (l : Light) :
+    ∃ l', l.move m = .ok l' ∧ Moved m l.obs l'.obs ∧ l'.shape = l.shape :=
+  ⟨⟨m.mv l.pos, l.shape⟩, by simp [Light.move, movePosition, guard_ok h], Moved.ofPts m _, rfl⟩
 
 /-! ### obstacles -/
 
 def Pred.obs : Pred → Obs
   | .none => Obs.nil
-  | .traj sts => obsL State.obs sts
+  | .traj _ sts => obsL State.obs sts
   | .occ shs => obsL Shape.obs shs
 
 def Pred.WF (τ : Rat) : Pred → Prop
   | .none => True
-  | .traj sts => ∀ st ∈ sts, st.WF τ
+  | .traj _ sts => ∀ st ∈ sts, st.WF τ
   | .occ shs => ∀ sh ∈ shs, sh.WF
 
+/-- what `translate_rotate` is documented to move: initial state, prediction, occupancies, environment shape. -/
 def Obstacle.obs : Obstacle → Obs
-  | .static st => st.obs
-  | .dynamic st p => st.obs ++ p.obs
+  | .static _ st => st.obs
+  | .dynamic _ st p _ => st.obs ++ p.obs
   | .phantom none => Obs.nil
   | .phantom (some shs) => obsL Shape.obs shs
   | .env sh => sh.obs
 
+/-- the world-frame content that `DynamicObstacle.translate_rotate` leaves alone: the history states. -/
+def Obstacle.histObs : Obstacle → Obs
+  | .dynamic _ _ _ hist => obsL State.obs hist
+  | _ => Obs.nil
+
+/-- body-frame shapes (`obstacle_shape`, `TrajectoryPrediction.shape`): must stay as they are. -/
+def Obstacle.bodies : Obstacle → List Shape
+  | .static b _ => [b]
+  | .dynamic b _ (.traj pb _) _ => [b, pb]
+  | .dynamic b _ _ _ => [b]
+  | _ => []
+
 def Obstacle.WF (τ : Rat) : Obstacle → Prop
-  | .static st => st.WF τ
-  | .dynamic st p => st.WF τ ∧ p.WF τ
+  | .static _ st => st.WF τ
+  | .dynamic _ st p _ => st.WF τ ∧ p.WF τ
   | .phantom none => True
   | .phantom (some shs) => ∀ sh ∈ shs, sh.WF
   | .env sh => sh.WF
 
-theorem Pred.move_spec {m : Mo} (h : Adm m) : ∀ p : Pred, p.WF m.τ → ∃ p', p.move m = .ok p' ∧ Moved m p.obs p'.obs
-  | .none, _ => ⟨.none, rfl, Moved.nil m⟩
-  | .traj sts, hw => by
-    obtain ⟨l', e, hm⟩ := moveStates_spec h sts hw
-    exact ⟨.traj l', by simp [Pred.move, moveTraj, guard_ok h, e], hm⟩
+theorem Pred.move_spec {m : Mo} (h : Adm m) : ∀ p : Pred, p.WF m.τ →
+    ∃ p', p.move m = .ok p' ∧ Moved m p.obs p'.obs ∧ p'.WF m.τ
+      ∧ (match p, p' with | .traj b _, .traj b' _ => b' = b | .traj _ _, _ => False | _, .traj _ _ => False | _, _ => True)
+  | .none, _ => ⟨.none, rfl, Moved.nil m, trivial, trivial⟩
+  | .traj b sts, hw => by
+    obtain ⟨l', e, hm, hw'⟩ := moveStates_spec h sts hw
+    exact ⟨.traj b l', by simp [Pred.move, moveTraj, guard_ok h, e], hm, hw', rfl⟩
   | .occ shs, hw => by
-    obtain ⟨l', e, hm⟩ := moveOccs_spec h shs hw
-    exact ⟨.occ l', by simp [Pred.move, e], hm⟩
+    obtain ⟨l', e, hm, hw'⟩ := moveOccs_spec h shs hw
+    exact ⟨.occ l', by simp [Pred.move, e], hm, hw', trivial⟩
 
 theorem Obstacle.move_spec {m : Mo} (h : Adm m) : ∀ o : Obstacle, o.WF m.τ →
-    ∃ o', o.move m = .ok o' ∧ Moved m o.obs o'.obs
-  | .static st, hw => by
-    obtain ⟨st', e, hm, _⟩ := State.move_spec h st hw
-    exact ⟨.static st', by simp [Obstacle.move, guard_ok h, e], hm⟩
-  | .dynamic st p, hw => by
-    obtain ⟨st', e1, hm1, _⟩ := State.move_spec h st hw.1
-    obtain ⟨p', e2, hm2⟩ := Pred.move_spec h p hw.2
-    exact ⟨.dynamic st' p', by simp [Obstacle.move, guard_ok h, e1, e2], Moved.app hm1 hm2⟩
-  | .phantom none, _ => ⟨.phantom none, by simp [Obstacle.move, guard_ok h], Moved.nil m⟩
+    ∃ o', o.move m = .ok o' ∧ Moved m o.obs o'.obs ∧ o'.WF m.τ ∧ o'.bodies = o.bodies ∧ o'.histObs = o.histObs
+  | .static b st, hw => by
+    obtain ⟨st', e, hm, hw'⟩ := State.move_spec h st hw
+    exact ⟨.static b st', by simp [Obstacle.move, guard_ok h, e], hm, hw', rfl, rfl⟩
+  | .dynamic b st p hist, hw => by
+    obtain ⟨st', e1, hm1, hw1⟩ := State.move_spec h st hw.1
+    obtain ⟨p', e2, hm2, hw2, hb⟩ := Pred.move_spec h p hw.2
+    refine ⟨.dynamic b st' p' hist, by simp [Obstacle.move, guard_ok h, e1, e2], Moved.app hm1 hm2, ⟨hw1, hw2⟩, ?_, rfl⟩
+    cases p <;> cases p' <;> simp_all [Obstacle.bodies]
+  | .phantom none, _ => ⟨.phantom none, by simp [Obstacle.move, guard_ok h], Moved.nil m, trivial, rfl, rfl⟩
   | .phantom (some shs), hw => by
-    obtain ⟨l', e, hm⟩ := moveOccs_spec h shs hw
-    exact ⟨.phantom (some l'), by simp [Obstacle.move, guard_ok h, e], hm⟩
+    obtain ⟨l', e, hm, hw'⟩ := moveOccs_spec h shs hw
+    exact ⟨.phantom (some l'), by simp [Obstacle.move, guard_ok h, e], hm, hw', rfl, rfl⟩
   | .env sh, hw => by
-    obtain ⟨sh', e, hm, _⟩ := Shape.move_spec h sh hw
-    exact ⟨.env sh', by simp [Obstacle.move, guard_ok h, e], hm⟩
+    obtain ⟨sh', e, hm, hw'⟩ := Shape.move_spec h sh hw
+    exact ⟨.env sh', by simp [Obstacle.move, guard_ok h, e], hm, hw', rfl, rfl⟩
 
 /-! ### scenario, planning problems -/
 
+/-- the content of a scenario that the property's list of components names (and `translate_rotate` moves). -/
 def Scenario.obs (sc : Scenario) : Obs :=
-  obsL Lanelet.obs sc.lanelets ++ Obs.ofPts sc.signs ++ Obs.ofPts sc.lights ++ obsL Obstacle.obs sc.obstacles
+  obsL Lanelet.obs sc.lanelets ++ Obs.ofPts sc.signs ++ obsL Light.obs sc.lights ++ obsL Obstacle.obs sc.obstacles
+
+/-- world-frame content of the scenario record that `translate_rotate` leaves in place: area borders, obstacle histories. -/
+def Scenario.leftObs (sc : Scenario) : Obs :=
+  Obs.ofPts (sc.areas.flatten.flatten) ++ obsL Obstacle.histObs sc.obstacles
+
+/-- EVERYTHING spatial in the scenario record that lives in the world frame. -/
+def Scenario.obsFull (sc : Scenario) : Obs := sc.obs ++ sc.leftObs
 
 def Scenario.WF (τ : Rat) (sc : Scenario) : Prop :=
   (∀ la ∈ sc.lanelets, la.WF) ∧ (∀ o ∈ sc.obstacles, o.WF τ)
@@ -603,24 +818,270 @@ def Problem.obs (pp : Problem) : Obs := pp.init.obs ++ obsL State.obs pp.goal
 
 def Problem.WF (τ : Rat) (pp : Problem) : Prop := pp.init.WF τ ∧ ∀ st ∈ pp.goal, st.WF τ
 
+theorem obsL_congr {α : Type} (f : α → Obs) : ∀ (l l' : List α), List.Forall₂ (fun x y => f y = f x) l l' →
+    obsL f l' = obsL f l
+  | [], [], _ => rfl
+  | _ :: _, _ :: _, .cons h t => by simp only [obsL]; rw [h, obsL_congr f _ _ t]
+
+theorem mapR_forall₂ {α : Type} (f : α → Res α) (R : α → α → Prop) (P : α → Prop)
+    (h : ∀ x y, P x → f x = .ok y → R x y) :
+    ∀ l l' : List α, (∀ x ∈ l, P x) → mapR f l = .ok l' → List.Forall₂ R l l'
+  | [], l', _, e => by simp [mapR] at e; subst e; exact .nil
+  | x :: xs, l', hP, e => by
+    simp only [mapR] at e
+    cases hx : f x with
+    | error err => simp [hx] at e
+    | ok y =>
+      cases hxs : mapR f xs with
+      | error err => simp [hx, hxs] at e
+      | ok ys =>
+        simp [hx, hxs] at e
+        subst e
+        exact .cons (h x y (hP x (by simp)) hx) (mapR_forall₂ f R P h xs ys (fun z hz => hP z (by simp [hz])) hxs)
+
 theorem Scenario.move_spec {m : Mo} (h : Adm m) (sc : Scenario) (hw : sc.WF m.τ) :
-    ∃ sc', sc.move m = .ok sc' ∧ Moved m sc.obs sc'.obs := by
-  obtain ⟨ls, e1, hm1⟩ := mapR_moved m (Lanelet.move m) Lanelet.obs Lanelet.WF
-    (fun la hla => let ⟨la', e, hm, _⟩ := Lanelet.move_spec h la hla; ⟨la', e, hm⟩) sc.lanelets hw.1
-  obtain ⟨obs, e4, hm4⟩ := mapR_moved m (Obstacle.move m) Obstacle.obs (Obstacle.WF m.τ)
-    (fun o ho => Obstacle.move_spec h o ho) sc.obstacles hw.2
-  refine ⟨⟨ls, sc.signs.map m.mv, sc.lights.map m.mv, obs⟩, ?_, ?_⟩
-  · simp [Scenario.move, guard_ok h, e1, mapR_movePosition h, e4]
-  · exact Moved.app (Moved.app (Moved.app hm1 (Moved.ofPts m _)) (Moved.ofPts m _)) hm4
+    ∃ sc', sc.move m = .ok sc' ∧ Moved m sc.obs sc'.obs ∧ sc'.WF m.τ ∧ sc'.leftObs = sc.leftObs
+      ∧ sc'.areas = sc.areas := by
+  obtain ⟨ls, e1, hm1, hw1, _⟩ := mapR_moved m (Lanelet.move m) Lanelet.obs Lanelet.WF
+    (fun la hla => Lanelet.move_spec h la hla) sc.lanelets hw.1
+  obtain ⟨lt, e3, hm3, _, _⟩ := mapR_moved m (Light.move m) Light.obs (fun _ => True)
+    (fun l _ => let ⟨l', e, hm, _⟩ := Light.move_spec h l; ⟨l', e, hm, trivial⟩) sc.lights (fun _ _ => trivial)
+  obtain ⟨obs, e4, hm4, hw4, _⟩ := mapR_moved m (Obstacle.move m) Obstacle.obs (Obstacle.WF m.τ)
+    (fun o ho => let ⟨o', e, hm, hw', _, _⟩ := Obstacle.move_spec h o ho; ⟨o', e, hm, hw'⟩) sc.obstacles hw.2
+  have hh : obsL Obstacle.histObs obs = obsL Obstacle.histObs sc.obstacles := by
+    apply obsL_congr
+    exact mapR_forall₂ (Obstacle.move m) _ (Obstacle.WF m.τ)
+      (fun o o' ho e => by
+        obtain ⟨o'', e', _, _, _, hh⟩ := Obstacle.move_spec h o ho
+        rw [e] at e'; cases e'; exact hh) sc.obstacles obs hw.2 e4
+  refine ⟨⟨ls, sc.signs.map m.mv, lt, obs, sc.areas⟩, ?_, ?_, ⟨hw1, hw4⟩, ?_, rfl⟩
+  · simp [Scenario.move, guard_ok h, e1, mapR_movePosition h, e3, e4]
+  · exact Moved.app (Moved.app (Moved.app hm1 (Moved.ofPts m _)) hm3) hm4
+  · simp only [Scenario.leftObs, hh]
 
 theorem Problem.move_spec {m : Mo} (h : Adm m) (pp : Problem) (hw : pp.WF m.τ) :
-    ∃ pp', pp.move m = .ok pp' ∧ Moved m pp.obs pp'.obs := by
-  obtain ⟨i', e1, hm1, _⟩ := State.move_spec h pp.init hw.1
-  obtain ⟨g', e2, hm2⟩ := moveStates_spec h pp.goal hw.2
-  exact ⟨⟨i', g'⟩, by simp [Problem.move, e1, e2], Moved.app hm1 hm2⟩
+    ∃ pp', pp.move m = .ok pp' ∧ Moved m pp.obs pp'.obs ∧ pp'.WF m.τ := by
+  obtain ⟨i', e1, hm1, hw1⟩ := State.move_spec h pp.init hw.1
+  obtain ⟨g', e2, hm2, hw2⟩ := moveStates_spec h pp.goal hw.2
+  exact ⟨⟨i', g'⟩, by simp [Problem.move, e1, e2], Moved.app hm1 hm2, ⟨hw1, hw2⟩⟩
 
 theorem moveProblems_spec {m : Mo} (h : Adm m) (l : List Problem) (hw : ∀ pp ∈ l, pp.WF m.τ) :
-    ∃ l', moveProblems m l = .ok l' ∧ Moved m (obsL Problem.obs l) (obsL Problem.obs l') :=
-  mapR_moved m (Problem.move m) Problem.obs (Problem.WF m.τ) (fun pp hpp => Problem.move_spec h pp hpp) l hw
+    ∃ l', moveProblems m l = .ok l' ∧ Moved m (obsL Problem.obs l) (obsL Problem.obs l') ∧ (∀ pp ∈ l', pp.WF m.τ) :=
+  let ⟨l', e, hm, hw', _⟩ := mapR_moved m (Problem.move m) Problem.obs (Problem.WF m.τ)
+    (fun pp hpp => Problem.move_spec h pp hpp) l hw
+  ⟨l', e, hm, hw'⟩
+
+/-! ### consequences of `Moved` on a composite: distances, areas, lengths -/
+
+/-- twice the signed area of the polygon with vertex list `l` (fan triangulation from the first vertex; for a closed ring
+    this is the shoelace sum `chain2`, see `areaOf_eq_chain2`). -/
+def areaOf : List Pt → Rat
+  | [] => 0
+  | p :: l => fan p (p :: l)
+
+theorem areaOf_map (c s : Rat) (t : Pt) : ∀ l : List Pt, areaOf (l.map (tr c s t)) = (c ^ 2 + s ^ 2) * areaOf l
+  | [] => by simp [areaOf]
+  | p :: l => by
+    have := fan_map c s t p p l
+    simpa [areaOf] using this
+
+theorem areaOf_eq_chain2 : ∀ l : List Pt, ClosedRing l → areaOf l = chain2 l
+  | [], _ => by simp [areaOf, chain2]
+  | p :: l, h => by
+    have h' : lastOf p l = p := h
+    have e := chain2_eq_fan p p l
+    rw [h'] at e
+    simp only [areaOf]; linarith
+
+/-- squared lengths of the consecutive segments of a polyline -/
+def segs2 : List Pt → List Rat
+  | p :: q :: l => dist2 p q :: segs2 (q :: l)
+  | _ => []
+
+theorem segs2_map (c s : Rat) (h1 : c ^ 2 + s ^ 2 = 1) (t : Pt) : ∀ l : List Pt, segs2 (l.map (tr c s t)) = segs2 l
+  | [] => rfl
+  | [_] => rfl
+  | p :: q :: l => by
+    have ih := segs2_map c s h1 t (q :: l)
+    simp only [List.map_cons] at ih ⊢
+    simp only [segs2]
+    rw [ih, dist2_tr, h1, one_mul]
+
+theorem Moved.areas {m : Mo} {o o' : Obs} (hm : Moved m o o') (h1 : m.c ^ 2 + m.s ^ 2 = 1) :
+    o'.rings.map areaOf = o.rings.map areaOf := by
+  rw [hm.rings, List.map_map]
+  apply List.map_congr_left
+  intro r _
+  have hmv : m.mv = tr m.c m.s m.t := rfl
+  simp only [Function.comp, hmv, areaOf_map, h1, one_mul]
+
+theorem Moved.lengths {m : Mo} {o o' : Obs} (hm : Moved m o o') (h1 : m.c ^ 2 + m.s ^ 2 = 1) :
+    o'.lines.map segs2 = o.lines.map segs2 := by
+  rw [hm.lines, List.map_map]
+  apply List.map_congr_left
+  intro r _
+  have hmv : m.mv = tr m.c m.s m.t := rfl
+  simp only [Function.comp, hmv, segs2_map m.c m.s h1]
+
+theorem Moved.dists {m : Mo} {o o' : Obs} (hm : Moved m o o') (h1 : m.c ^ 2 + m.s ^ 2 = 1) :
+    ∀ i j : Nat, ∀ p q p' q' : Pt, o.pts[i]? = some p → o.pts[j]? = some q →
+      o'.pts[i]? = some p' → o'.pts[j]? = some q' → dist2 p' q' = dist2 p q := by
+  intro i j p q p' q' hp hq hp' hq'
+  rw [hm.pts, List.getElem?_map, hp] at hp'
+  rw [hm.pts, List.getElem?_map, hq] at hq'
+  simp only [Option.map_some, Option.some.injEq] at hp' hq'
+  rw [← hp', ← hq']
+  show dist2 (tr m.c m.s m.t p) (tr m.c m.s m.t q) = dist2 p q
+  rw [dist2_tr, h1, one_mul]
+
+/-! ### headings: points and orientations turn by the same rotation -/
+
+/-- `dir` plays the role of `θ ↦ (cos θ, sin θ)`.  It is coherent with the motion `m` when turning the angle by `m.a`
+    is the rotation by `(m.c, m.s)` (the angle-sum formulas with `c = cos a`, `s = sin a`) and it has period `τ`.
+    This is the only place where the angle `a` and the matrix entries `(c, s)` are related. -/
+structure Coherent (m : Mo) (dir : Rat → Pt) : Prop where
+  add : ∀ θ, dir (θ + m.a) = m.rv (dir θ)
+  period : ∀ θ (k : Int), dir (θ + k * m.τ) = dir θ
+
+theorem Coherent.wr {m : Mo} {dir : Rat → Pt} (hc : Coherent m dir) (hτ : 0 < m.τ) (θ : Rat) :
+    dir (m.wr θ) = m.rv (dir θ) := by
+  obtain ⟨k, e, _, _⟩ := makeValid_spec m.τ hτ (θ + m.a)
+  show dir (makeValid m.τ (θ + m.a)) = _
+  rw [e, hc.period, hc.add]
+
+def Rect.corners (dir : Rat → Pt) (r : Rect) : List Pt := rectCorners r.l r.w r.ctr (dir r.θ).x (dir r.θ).y
+
+theorem rectCorners_tr (c s : Rat) (t ctr : Pt) (l w cθ sθ : Rat) :
+    rectCorners l w (tr c s t ctr) (rot c s ⟨cθ, sθ⟩).x (rot c s ⟨cθ, sθ⟩).y
+      = (rectCorners l w ctr cθ sθ).map (tr c s t) := by
+  simp only [rectCorners, List.map_cons, List.map_nil, tr, rot]
+  refine List.cons_eq_cons.mpr ⟨?_, List.cons_eq_cons.mpr ⟨?_, List.cons_eq_cons.mpr ⟨?_, List.cons_eq_cons.mpr ⟨?_, rfl⟩⟩⟩⟩ <;>
+    (apply Pt.ext' <;> ring)
+
+theorem Rect.corners_moved {m : Mo} {dir : Rat → Pt} (hc : Coherent m dir) (hτ : 0 < m.τ) (r : Rect) :
+    (m.mvRect r).corners dir = (r.corners dir).map m.mv := by
+  simp only [Rect.corners, Mo.mvRect]
+  rw [hc.wr hτ]
+  exact rectCorners_tr m.c m.s m.t r.ctr r.l r.w (dir r.θ).x (dir r.θ).y
+
+theorem Moved.headings {m : Mo} {o o' : Obs} {dir : Rat → Pt} (hm : Moved m o o') (hc : Coherent m dir)
+    (hτ : 0 < m.τ) : o'.angs.map dir = o.angs.map (fun θ => m.rv (dir θ)) := by
+  rw [hm.angs, List.map_map]
+  apply List.map_congr_left
+  intro θ _
+  exact hc.wr hτ θ
+
+theorem Moved.corners {m : Mo} {o o' : Obs} {dir : Rat → Pt} (hm : Moved m o o') (hc : Coherent m dir)
+    (hτ : 0 < m.τ) : o'.rects.map (Rect.corners dir) = o.rects.map (fun r => (r.corners dir).map m.mv) := by
+  rw [hm.rects, List.map_map]
+  apply List.map_congr_left
+  intro r _
+  exact Rect.corners_moved hc hτ r
+
+theorem IvsMoved.headings {m : Mo} {dir : Rat → Pt} (hc : Coherent m dir) :
+    ∀ {a b : List I}, IvsMoved m a b →
+      b.map (fun i => (dir i.lo, dir i.hi)) = a.map (fun i => (m.rv (dir i.lo), m.rv (dir i.hi)))
+  | [], [], _ => rfl
+  | [], _ :: _, h => h.elim
+  | _ :: _, [], h => h.elim
+  | i :: _, j :: _, h => by
+    obtain ⟨k, e1, e2, _, _⟩ := h.1
+    simp only [List.map_cons]
+    rw [IvsMoved.headings hc h.2, e1, e2, hc.period, hc.period, hc.add, hc.add]
+
+/-! ### undoing the motion on a composite -/
+
+/-- rotate back by `-a` about the origin (cos = c, sin = -s), no translation -/
+def Mo.invRot (m : Mo) : Mo := ⟨m.c, -m.s, -m.a, ⟨0, 0⟩, m.τ⟩
+/-- translate back by `-t`, angle 0 (cos = 1, sin = 0) -/
+def Mo.invTr (m : Mo) : Mo := ⟨1, 0, 0, ⟨-m.t.x, -m.t.y⟩, m.τ⟩
+
+theorem Adm.invRot {m : Mo} (h : Adm m) : Adm m.invRot := by
+  refine ⟨h.τpos, ?_, ?_⟩
+  · have := h.valid
+    show validOrientation m.τ (-m.a) = true
+    simp only [validOrientation, Bool.and_eq_true, decide_eq_true_eq] at this ⊢
+    constructor <;> linarith [this.1, this.2]
+  · have := h.det
+    simp only [Mo.invRot]; nlinarith
+
+theorem Adm.invTr {m : Mo} (h : Adm m) : Adm m.invTr := by
+  refine ⟨h.τpos, ?_, by simp [Mo.invTr]⟩
+  have := h.τpos
+  show validOrientation m.τ 0 = true
+  simp only [validOrientation, Bool.and_eq_true, decide_eq_true_eq]
+  constructor <;> linarith
+
+theorem mv_inverse {m : Mo} (h1 : m.c ^ 2 + m.s ^ 2 = 1) (p : Pt) : m.invTr.mv (m.invRot.mv (m.mv p)) = p := by
+  apply Pt.ext'
+  · simp only [Mo.mv, Mo.invTr, Mo.invRot, tr]; linear_combination (p.x + m.t.x) * h1
+  · simp only [Mo.mv, Mo.invTr, Mo.invRot, tr]; linear_combination (p.y + m.t.y) * h1
+
+theorem rv_inverse {m : Mo} (h1 : m.c ^ 2 + m.s ^ 2 = 1) (v : Pt) : m.invTr.rv (m.invRot.rv (m.rv v)) = v := by
+  apply Pt.ext'
+  · simp only [Mo.rv, Mo.invTr, Mo.invRot, rot]; linear_combination v.x * h1
+  · simp only [Mo.rv, Mo.invTr, Mo.invRot, rot]; linear_combination v.y * h1
+
+theorem wr_inverse {m : Mo} (hτ : 0 < m.τ) (θ : Rat) :
+    ∃ k : Int, m.invTr.wr (m.invRot.wr (m.wr θ)) = θ + k * m.τ := by
+  obtain ⟨k1, e1, _, _⟩ := makeValid_spec m.τ hτ (θ + m.a)
+  obtain ⟨k2, e2, _, _⟩ := makeValid_spec m.τ hτ (makeValid m.τ (θ + m.a) + -m.a)
+  obtain ⟨k3, e3, _, _⟩ := makeValid_spec m.τ hτ (makeValid m.τ (makeValid m.τ (θ + m.a) + -m.a) + 0)
+  refine ⟨k1 + k2 + k3, ?_⟩
+  show makeValid m.τ (makeValid m.τ (makeValid m.τ (θ + m.a) + -m.a) + 0) = _
+  rw [e3, e2, e1]; push_cast; ring
+
+theorem map3_id {α : Type} (f g h : α → α) (hid : ∀ x, h (g (f x)) = x) (l : List α) :
+    ((l.map f).map g).map h = l := by
+  rw [List.map_map, List.map_map]
+  conv_rhs => rw [← List.map_id l]
+  apply List.map_congr_left
+  intro x _
+  simp [Function.comp, hid]
+
+/-- the composite is restored: every listed point, polygon, polyline, dimension and velocity vector is exactly what it was;
+    orientations are what they were as angles (a common map `f` with `f θ = θ + k τ`), intervals are shifted by a multiple of
+    `τ` (both ends alike). -/
+structure Restored (τ : Rat) (o o' : Obs) : Prop where
+  pts : o'.pts = o.pts
+  dims : o'.dims = o.dims
+  vels : o'.vels = o.vels
+  rings : o'.rings = o.rings
+  lines : o'.lines = o.lines
+  angs : ∃ f : Rat → Rat, (∀ θ, ∃ k : Int, f θ = θ + k * τ) ∧ o'.angs = o.angs.map f
+            ∧ o'.rects = o.rects.map (fun r => ⟨r.l, r.w, r.ctr, f r.θ⟩)
+  ivs : IvsMoved ⟨1, 0, 0, ⟨0, 0⟩, τ⟩ o.ivs o'.ivs
+
+theorem Moved.restored {m : Mo} {o o1 o2 o3 : Obs} (h1 : m.c ^ 2 + m.s ^ 2 = 1) (hτ : 0 < m.τ)
+    (ha : Moved m o o1) (hb : Moved m.invRot o1 o2) (hc : Moved m.invTr o2 o3) : Restored m.τ o o3 := by
+  refine ⟨?_, ?_, ?_, ?_, ?_, ⟨fun θ => m.invTr.wr (m.invRot.wr (m.wr θ)), wr_inverse hτ, ?_, ?_⟩, ?_⟩
+  · rw [hc.pts, hb.pts, ha.pts]; exact map3_id _ _ _ (mv_inverse h1) _
+  · rw [hc.dims, hb.dims, ha.dims]
+  · rw [hc.vels, hb.vels, ha.vels]; exact map3_id _ _ _ (rv_inverse h1) _
+  · rw [hc.rings, hb.rings, ha.rings]
+    exact map3_id _ _ _ (fun r => map3_id _ _ _ (mv_inverse h1) r) _
+  · rw [hc.lines, hb.lines, ha.lines]
+    exact map3_id _ _ _ (fun r => map3_id _ _ _ (mv_inverse h1) r) _
+  · rw [hc.angs, hb.angs, ha.angs, List.map_map, List.map_map]; rfl
+  · rw [hc.rects, hb.rects, ha.rects, List.map_map, List.map_map]
+    apply List.map_congr_left
+    intro r _
+    simp only [Function.comp, Mo.mvRect, mv_inverse h1]
+  · have h12 : IvsMoved ⟨1, 0, 0, ⟨0, 0⟩, m.τ⟩ o.ivs o2.ivs :=
+      IvsMoved.trans (m1 := m) (m2 := m.invRot) (m12 := ⟨1, 0, 0, ⟨0, 0⟩, m.τ⟩) rfl rfl (by simp [Mo.invRot]) ha.ivs hb.ivs
+    exact IvsMoved.trans (m1 := ⟨1, 0, 0, ⟨0, 0⟩, m.τ⟩) (m2 := m.invTr) (m12 := ⟨1, 0, 0, ⟨0, 0⟩, m.τ⟩) rfl rfl
+      (by simp [Mo.invTr]) h12 hc.ivs
+
+/-- if some world-frame content that the code leaves in place is not a fixed point of the motion, the scenario as a whole is
+    not `Moved` (used for the witnesses). -/
+theorem Scenario.not_moved_full {m : Mo} (h : Adm m) (sc : Scenario) (hw : sc.WF m.τ)
+    (hne : sc.leftObs.pts.map m.mv ≠ sc.leftObs.pts) :
+    ∀ sc', sc.move m = .ok sc' → ¬ Moved m sc.obsFull sc'.obsFull := by
+  intro sc' e hm
+  obtain ⟨sc'', e', hm', _, hl, _⟩ := Scenario.move_spec h sc hw
+  rw [e] at e'; cases e'
+  have := hm.pts
+  simp only [Scenario.obsFull, Obs.app_pts, List.map_append, hl, hm'.pts] at this
+  exact hne (List.append_cancel_left this).symm
 
 end CR.Rigid
